@@ -179,6 +179,11 @@ def gen_items(seed, tier):
                 ops.append({"op": "mutate", "cell": ref, "item": ni})
             else:
                 ops.append({"op": "update", "cell": ref})
+        # "the same text as shown by every renderer": CSV and HTML show exactly the cell texts
+        k = rng.choice(["csv", "html", "none"])
+        if k != "none":
+            ops.append({"op": "wrap", "kind": k, "over": {"t": 1}})
+            ops.append({"op": "render", "w": 1, "entry": "Render"})
         out.append(ops)
     return out
 
@@ -247,8 +252,12 @@ def gen_errors(seed, tier):
                             choices.append(({"kind": "cell", "r": j + 1, "c": c}, "render", rng.choice(["itself", "cell"])))
                 o, tm, tg = rng.choice(choices)
                 b.ops.append({"op": "regcb", "t": 1, "owner": o, "time": tm, "target": tg, "fails": 1 if rng.random() < 0.8 else 0})
-            elif r < 0.8:
+            elif r < 0.75:
                 b.ops.append({"op": "rendercbs", "t": 1})
+            elif r < 0.8:
+                # a real render: errors of failing render-time callbacks are accumulated once per pass
+                b.ops.append({"op": "render", "pkg": rng.choice(["text", "csv", "html", "json", "md"]), "t": 1,
+                              "entry": rng.choice(["Render", "RenderTo"])})
             elif r < 0.86:
                 b.ops.append({"op": "ecnew", "kind": rng.choice(["made", "zero", "nil"])})
                 necs += 1
@@ -436,6 +445,48 @@ def rnd_decor_op(rng, w):
     return {"op": "decor", "w": w, "custom": dict(zip(fields, glyphs))}
 
 
+def cell_refs(ops):
+    """Replays the id allocation of a scenario: [(reference, item descriptor)] of every cell and header cell."""
+    rows = []     # per row object: list of items (None for separators)
+    hdr = {}
+    for op in ops:
+        o = op["op"]
+        if o == "headers":
+            hdr[op["t"]] = list(op["items"])
+        elif o == "rowitems":
+            rows.append(list(op["items"]))
+        elif o == "sep":
+            rows.append(None)
+        elif o in ("appendrow", "newrow"):
+            rows.append([])
+        elif o == "rowadd" and rows[op["r"] - 1] is not None:
+            rows[op["r"] - 1].append(op["item"])
+    out = []
+    for t, items in hdr.items():
+        out += [({"kind": "hcell", "t": t, "c": c + 1}, it) for c, it in enumerate(items)]
+    for r, items in enumerate(rows):
+        if items:
+            out += [({"kind": "cell", "r": r + 1, "c": c + 1}, it) for c, it in enumerate(items)]
+    return out
+
+
+def mutate_ops(rng, ops, texts, p=0.35):
+    """Items mutated behind the cells' backs (with and without Update) before rendering: the renderers must
+    show the text the cell last read (C01: 'the same text as shown by every renderer')."""
+    out = []
+    objs = [(ref, it) for ref, it in cell_refs(ops) if it.get("k") == "obj"]
+    if objs and rng.random() < p:
+        for ref, it in rng.sample(objs, min(len(objs), rng.randint(1, 3))):
+            ni = {"k": "obj", "caps": list(it["caps"]), "strv": rng.choice(texts), "gov": rng.choice(texts), "errv": rng.choice(texts),
+                  "h": it.get("h", 0), "w": it.get("w", 0)}
+            if "Width" in it["caps"]:
+                ni["strv"] = rng.choice([t for t in texts if "\n" not in t and t != ""])
+            out.append({"op": "mutate", "cell": ref, "item": ni})
+            if rng.random() < 0.5:
+                out.append({"op": "update", "cell": ref})
+    return out
+
+
 def gen_text(seed, tier, sized=0.0, aligns=0.3):
     """C03/C04: random tables (<= 6 x 8, ragged, empty rows, header narrower/wider than body) under all
     registered and random custom decorations, random alignment settings."""
@@ -448,6 +499,7 @@ def gen_text(seed, tier, sized=0.0, aligns=0.3):
         for c in range(0, ncols + 1):
             if rng.random() < aligns:
                 b.ops.append({"op": "setprop", "owner": {"kind": "column", "t": 1, "n": c}, "k": "k_align", "v": rng.choice(["vL", "vR", "vC"])})
+        b.ops += mutate_ops(rng, b.ops, TEXTS)
         b.ops.append({"op": "wrap", "kind": "text", "over": {"t": 1}})
         for _ in range(rng.randint(1, 3)):
             if rng.random() < 0.8:
